@@ -199,6 +199,22 @@ def kinds (rv : Rotonda.Rib.Variant) (us : List Update) : List Kind := kindsFrom
 
 def cnt (k : Kind) (ks : List Kind) : Nat := ks.count k
 
+/-- Does the store accept the payload (so that `insert_ok` runs and its ingress gets an e2e sample)? -/
+def Kind.accepted : Kind → Bool
+  | .withdraw | .newPrefix | .knownPrefix => true
+  | _ => false
+
+/-- The ingress ids of the accepted payload events, in order, with repetitions. -/
+def okMuisP (r : Rib) : List Payload → List Mui
+  | [] => []
+  | p :: ps => (if (kind r p).accepted then [p.mui] else []) ++ okMuisP (r.insertPayload p) ps
+
+def okMuisFrom (rv : Rotonda.Rib.Variant) (r : Rib) : List Update → List Mui
+  | [] => []
+  | u :: us => okMuisP r (payloadsOf u) ++ okMuisFrom rv (r.apply rv u) us
+
+def okMuis (rv : Rotonda.Rib.Variant) (us : List Update) : List Mui := okMuisFrom rv Rib.empty us
+
 /-! ### What the metric names say they count, computed from the RIB content -/
 
 /-- Does store `s` hold at least one record for prefix `p`? -/
